@@ -13,7 +13,7 @@ def decimal (n : Nat) : Bytes := (Nat.toDigits 10 n).map (fun c => c.toNat.toUIn
 def crlf : Bytes := [13, 10]
 
 def statusLine (code : Nat) : Bytes :=
-  b!"HTTP/1.1 " ++ decimal code ++ [32] ++ str (reasonPhrase code) ++ crlf
+  b!"HTTP/1.1 " ++ decimal code ++ [32] ++ reasonBytes code ++ crlf
 
 /-- The duplicate guard: the repaired code refuses when *any* field of that name is present
     (`legacy`: `get_only(..).is_some()`, i.e. exactly one). -/
